@@ -287,7 +287,7 @@ func (fr *frame) contractCall(v ssa.Value, callee *ssa.Function, ct *Contract, a
 			o.Extra = extra
 			if len(ct.Props) > 0 {
 				// a caller-side obligation belongs to the properties of the callee's contract
-				o.Props = ct.Props
+				o.Props = unionProps(o.Props, ct.Props)
 			}
 		}
 		if t2, err := env.boolExpr(rq.E); err == nil {
@@ -828,7 +828,7 @@ func (fr *frame) contractCallSigNames(v ssa.Value, ct *Contract, sig *types.Sign
 			o.Extra = extra
 			if len(ct.Props) > 0 {
 				// a caller-side obligation belongs to the properties of the callee's contract
-				o.Props = ct.Props
+				o.Props = unionProps(o.Props, ct.Props)
 			}
 		}
 		if t2, err := env.boolExpr(rq.E); err == nil {
@@ -1201,7 +1201,7 @@ func (fr *frame) iterateClosure(cl Val, pos ssa.Instruction) {
 			if o := fr.obligeO("iter.init", fmt.Sprintf("iterator invariant of %s holds before the iteration: %s", ct.Key, iv.Src), pos.Pos(), t); o != nil {
 				o.Extra = extra
 				if len(ct.Props) > 0 {
-					o.Props = ct.Props
+					o.Props = unionProps(o.Props, ct.Props)
 				}
 			}
 		}
@@ -1345,4 +1345,22 @@ func (fr *frame) havocThroughArg(a Val, who string) {
 	}
 	u.storePtr(p, fr.st, c.t)
 	u.note("%s: the variable argument of %s points to receives an arbitrary value (decoded data is not modelled)", fr.fn.Name(), who)
+}
+
+// unionProps: a call-site obligation belongs to the caller's properties (the callee's
+// postcondition is assumed there) and to the callee's (its contract is only as good as its callers)
+func unionProps(a, b []string) []string {
+	out := append([]string{}, a...)
+	for _, x := range b {
+		have := false
+		for _, y := range out {
+			if x == y {
+				have = true
+			}
+		}
+		if !have {
+			out = append(out, x)
+		}
+	}
+	return out
 }
